@@ -11,6 +11,7 @@
 From Coq Require Import List ZArith Bool Arith Lia.
 From FV Require Import Kernel World Factory.
 From FV Require FactoryInv FactoryRes FactorySlotFirst.
+From FV Require SrcFragments TieNodes.
 Import ListNotations.
 
 (* every configuration (nodes, edges, construction order) whose nodes start with the resource the
@@ -70,3 +71,13 @@ Theorem C08_combiner_asks_for_slot_first_again :
     FactorySlotFirst.quiet w (fst (combiner_block w p)) /\ FactorySlotFirst.waits_for_slot (combiner_block w p) p.
 Proof. exact FactorySlotFirst.combiner_after_handover_slot_first. Qed.
 Print Assumptions C08_combiner_asks_for_slot_first_again.
+
+(* the same order in the source, regenerated on every run (tie B, theories/Nodes/TieNodes.v) *)
+Theorem C08_slot_order_regenerated :
+  SrcFragments.Machine_slot_before_reserve = true /\ SrcFragments.Combiner_slot_before_reserve = true /\
+  SrcFragments.Splitter_slot_before_get = true.
+Proof.
+  exact (conj TieNodes.machine_slot_before_reserve_src
+              (conj TieNodes.combiner_slot_before_reserve_src TieNodes.splitter_slot_before_get_src)).
+Qed.
+Print Assumptions C08_slot_order_regenerated.
